@@ -1,9 +1,31 @@
 use mc::report::Report;
 use mc::{props, refmodel};
 
+/// A logger that accepts every record and writes nothing: with it installed at Trace, the argument expressions of
+/// the library's log statements are evaluated (the `log` macros skip them when no logger wants the record), so a
+/// log statement with a side effect behaves here as it would in an application that has logging switched on.
+struct NullLogger;
+impl log::Log for NullLogger {
+    fn enabled(&self, _: &log::Metadata) -> bool {
+        true
+    }
+    fn log(&self, r: &log::Record) {
+        // render the message (a Display impl inside the arguments may itself misbehave), discard the text
+        use std::fmt::Write;
+        let mut sink = String::new();
+        let _ = write!(sink, "{}", r.args());
+    }
+    fn flush(&self) {}
+}
+static NULL_LOGGER: NullLogger = NullLogger;
+
 fn main() {
     let args: Vec<String> = std::env::args().collect();
     mc::drive::install_panic_hook();
+    if std::env::var("MC_NO_LOGGER").is_err() {
+        let _ = log::set_logger(&NULL_LOGGER);
+        log::set_max_level(log::LevelFilter::Trace);
+    }
     match args.get(1).map(|s| s.as_str()) {
         Some("check") => {
             let prop = args.get(2).expect("property id").clone();
